@@ -260,7 +260,7 @@ fn main() {
             std::fs::write(&file, format!("{}\n", v["case"]["line"].as_str().unwrap_or(""))).expect("write replay input");
             let out = std::process::Command::new("cargo")
                 .current_dir(verif_dir.join("harness"))
-                .args(["+nightly", "miri", "run", "-q", "--target", "i686-unknown-linux-gnu", "-p", "mlv", "--bin", "mlv-miri", "--", "L32F", file.to_str().unwrap()])
+                .args(["+nightly", "miri", "run", "-q", "--target", v["case"]["target"].as_str().unwrap_or("i686-unknown-linux-gnu"), "-p", "mlv", "--bin", "mlv-miri", "--", "L32F", file.to_str().unwrap()])
                 .env("MIRIFLAGS", "-Zmiri-tree-borrows -Zmiri-disable-isolation -Zmiri-no-extra-rounding-error")
                 .env("CARGO_TARGET_DIR", verif_dir.join("build").join("miri"))
                 .env("CARGO_NET_OFFLINE", "true")
@@ -289,7 +289,7 @@ fn main() {
             let count = v["case"]["count"].as_u64().unwrap_or(4).to_string();
             let st = std::process::Command::new("cargo")
                 .current_dir(verif_dir.join("harness"))
-                .args(["+nightly", "miri", "run", "-q", "--target", "i686-unknown-linux-gnu", "-p", "mlv", "--bin", "mlv-miri", "--", if id == "C18" { "U32" } else if id == "C12" { "C12" } else if id == "C13" { "C13" } else { "L32" }, &count, &seed])
+                .args(["+nightly", "miri", "run", "-q", "--target", v["case"]["target"].as_str().unwrap_or("i686-unknown-linux-gnu"), "-p", "mlv", "--bin", "mlv-miri", "--", if id == "C18" { "U32" } else if id == "C12" { "C12" } else if id == "C13" { "C13" } else { "L32" }, &count, &seed])
                 .env("MIRIFLAGS", "-Zmiri-tree-borrows -Zmiri-disable-isolation -Zmiri-no-extra-rounding-error")
                 .env("CARGO_TARGET_DIR", verif_dir.join("build").join("miri"))
                 .env("CARGO_NET_OFFLINE", "true")
